@@ -150,6 +150,9 @@ type MemOptions struct {
 	OnFault func()
 	// WriteHook, when set, is called before every Write outside the lock (may block: schedule control).
 	WriteHook func(ordinal int, d Dir, n int)
+	// Mutate, when set, may return altered bytes (same length) for a chunk about to be
+	// delivered at stream offset off (in-flight corruption). Called under the pair's lock.
+	Mutate func(ordinal int, d Dir, off int64, p []byte) []byte
 }
 
 type memShared struct {
@@ -464,9 +467,15 @@ func (s *MemStream) Write(p []byte) (int, error) {
 
 func (s *MemStream) deliverLocked(q *memQueue, d Dir, chunk []byte) {
 	sh := s.sh
+	off := s.hp.written[d]
 	s.hp.written[d] += int64(len(chunk))
 	if len(chunk) == 0 {
 		return
+	}
+	if m := sh.opts.Mutate; m != nil {
+		if alt := m(s.hp.ordinal, d, off, chunk); len(alt) == len(chunk) {
+			chunk = alt
+		}
 	}
 	q.buf = append(q.buf, chunk...)
 	sh.moved += int64(len(chunk))
@@ -526,6 +535,11 @@ func (s *MemStream) Read(p []byte) (int, error) {
 		if len(p) == 0 {
 			return 0, nil
 		}
+		// like quic-go: once the connection is closed or lost, Read fails at once, even
+		// if received data is still buffered
+		if e := sh.connErr[s.side]; e != nil {
+			return 0, e
+		}
 		if len(q.buf) > 0 {
 			n := copy(p, q.buf)
 			q.buf = q.buf[n:]
@@ -534,9 +548,6 @@ func (s *MemStream) Read(p []byte) (int, error) {
 			}
 			sh.cond.Broadcast()
 			return n, nil
-		}
-		if e := sh.connErr[s.side]; e != nil {
-			return 0, e
 		}
 		if q.fin {
 			return 0, io.EOF
